@@ -181,7 +181,7 @@ func (e *Env) Close() bool {
 	ok := true
 	select {
 	case <-done:
-	case <-time.After(20 * time.Second):
+	case <-time.After(60 * time.Second):
 		ok = false
 	}
 	if tr, isTr := e.Proxy.GetRoundTripper().(*http.Transport); isTr {
